@@ -10,7 +10,6 @@ import (
 	"path/filepath"
 	"strings"
 
-	"github.com/JunNishimura/Goit/internal/file"
 	"github.com/JunNishimura/Goit/internal/object"
 	"github.com/JunNishimura/Goit/internal/store"
 	"github.com/spf13/cobra"
@@ -28,12 +27,9 @@ func restoreIndex(rootGoitPath, path string, index *store.Index, tree *object.Tr
 		// restore index
 		if isNodeFound { // if the file is updated
 			// change hash
-			isUpdated, err := index.Update(rootGoitPath, node.Hash, []byte(path))
-			if err != nil {
+			// (nothing to do if the entry already equals the one in HEAD)
+			if _, err := index.Update(rootGoitPath, node.Hash, []byte(path)); err != nil {
 				return fmt.Errorf("fail to update index: %w", err)
-			}
-			if !isUpdated {
-				return errors.New("fail to restore index")
 			}
 		} else { // if the file is newly added
 			// delete entry
@@ -56,6 +52,40 @@ func restoreIndex(rootGoitPath, path string, index *store.Index, tree *object.Tr
 	}
 
 	return nil
+}
+
+// stagedPathsUnder returns the paths meant by a pathspec for restore --staged:
+// the path itself if the index or the HEAD commit knows it as a file,
+// otherwise every path beneath it known to the index or to the HEAD commit
+func stagedPathsUnder(pathSpec string, index *store.Index, tree *object.Tree) []string {
+	var paths []string
+	seen := make(map[string]struct{})
+	addPath := func(path string) {
+		if _, ok := seen[path]; !ok {
+			seen[path] = struct{}{}
+			paths = append(paths, path)
+		}
+	}
+
+	_, _, isEntryFound := index.GetEntry([]byte(pathSpec))
+	node, isNodeFound := object.GetNode(tree.Children, pathSpec)
+	if isEntryFound || (isNodeFound && len(node.Children) == 0) {
+		addPath(pathSpec)
+	}
+	for _, entry := range index.GetEntriesByDirectory(pathSpec) {
+		addPath(string(entry.Path))
+	}
+	if isNodeFound && len(node.Children) > 0 {
+		parentDir := strings.ReplaceAll(filepath.Dir(pathSpec), `\`, "/")
+		for _, path := range node.GetPaths() { // paths start with the name of the node
+			if parentDir != "." {
+				path = fmt.Sprintf("%s/%s", parentDir, path)
+			}
+			addPath(path)
+		}
+	}
+
+	return paths
 }
 
 func restoreWorkingDirectory(rootGoitPath, path string, index *store.Index) error {
@@ -141,68 +171,17 @@ var restoreCmd = &cobra.Command{
 			}
 
 			for _, arg := range args {
-				argAbsPath, err := filepath.Abs(arg)
-				if err != nil {
-					return fmt.Errorf("fail to get arg abs path: %w", err)
+				cleanedArg := filepath.Clean(arg)
+				cleanedArg = strings.ReplaceAll(cleanedArg, `\`, "/")
+
+				// the paths meant by the argument are looked up in the index and in the HEAD commit,
+				// not in the file system: the file or directory may be deleted, and untracked files do not count
+				paths := stagedPathsUnder(cleanedArg, client.Idx, tree)
+				if len(paths) == 0 {
+					return fmt.Errorf("error: pathspec '%s' did not match any file(s) known to goit", arg)
 				}
-				f, err := os.Stat(argAbsPath)
-				if os.IsNotExist(err) { // even if the file is not found, the file might be the deleted file
-					// get node
-					cleanedArg := filepath.Clean(arg)
-					cleanedArg = strings.ReplaceAll(cleanedArg, `\`, "/")
-					node, isNodeFound := object.GetNode(tree.Children, cleanedArg)
-					if !isNodeFound {
-						return fmt.Errorf("error: pathspec '%s' did not match any file(s) known to goit", arg)
-					}
-
-					// check if the arg is dir or not
-					if len(node.Children) > 0 { // node is directory
-						paths := node.GetPaths()
-
-						for _, path := range paths {
-							if err := restoreIndex(client.RootGoitPath, path, client.Idx, tree); err != nil {
-								return err
-							}
-						}
-					} else { // node is a file
-						if err := restoreIndex(client.RootGoitPath, cleanedArg, client.Idx, tree); err != nil {
-							return err
-						}
-					}
-
-					continue
-				}
-
-				if err != nil {
-					return fmt.Errorf("%w: %s", ErrIOHandling, arg)
-				}
-				if f.IsDir() { // directory
-					filePaths, err := file.GetFilePathsUnderDirectory(argAbsPath)
-					if err != nil {
-						return fmt.Errorf("fail to get file path under directory: %w", err)
-					}
-					for _, filePath := range filePaths {
-						curPath, err := os.Getwd()
-						if err != nil {
-							return fmt.Errorf("fail to get current directory: %w", err)
-						}
-						relPath, err := filepath.Rel(curPath, filePath)
-						if err != nil {
-							return fmt.Errorf("fail to get relative path: %w", err)
-						}
-						cleanedRelPath := strings.ReplaceAll(relPath, `\`, "/")
-
-						// restore index
-						if err := restoreIndex(client.RootGoitPath, cleanedRelPath, client.Idx, tree); err != nil {
-							return err
-						}
-					}
-				} else { // file
-					cleanedArg := filepath.Clean(arg)
-					cleanedArg = strings.ReplaceAll(cleanedArg, `\`, "/")
-
-					// restore index
-					if err := restoreIndex(client.RootGoitPath, cleanedArg, client.Idx, tree); err != nil {
+				for _, path := range paths {
+					if err := restoreIndex(client.RootGoitPath, path, client.Idx, tree); err != nil {
 						return err
 					}
 				}
@@ -210,69 +189,28 @@ var restoreCmd = &cobra.Command{
 		} else {
 			// execute restore working directory
 			for _, arg := range args {
-				argAbsPath, err := filepath.Abs(arg)
-				if err != nil {
-					return fmt.Errorf("fail to get arg abs path: %w", err)
-				}
-				f, err := os.Stat(argAbsPath)
-				if os.IsNotExist(err) {
-					// check if the arg is registered in the index
-					cleanedArg := filepath.Clean(arg)
-					cleanedArg = strings.ReplaceAll(cleanedArg, `\`, "/")
-					_, _, isRegistered := client.Idx.GetEntry([]byte(cleanedArg))
-					isRegisteredAsDir := client.Idx.IsRegisteredAsDirectory(cleanedArg)
+				cleanedArg := filepath.Clean(arg)
+				cleanedArg = strings.ReplaceAll(cleanedArg, `\`, "/")
 
-					if !(isRegistered || isRegisteredAsDir) {
-						return fmt.Errorf("error: pathspec '%s' did not match any file(s) known to goit", arg)
-					}
-
-					if isRegisteredAsDir {
-						entries := client.Idx.GetEntriesByDirectory(cleanedArg)
-						for _, entry := range entries {
-							if err := restoreWorkingDirectory(client.RootGoitPath, string(entry.Path), client.Idx); err != nil {
-								return err
-							}
-						}
-					} else {
-						if err := restoreWorkingDirectory(client.RootGoitPath, cleanedArg, client.Idx); err != nil {
-							return err
-						}
-					}
-
-					continue
+				// check if the arg is registered in the index (as a file or as a directory);
+				// the file system is not consulted: tracked files may be deleted and untracked files do not count
+				_, _, isRegistered := client.Idx.GetEntry([]byte(cleanedArg))
+				isRegisteredAsDir := client.Idx.IsRegisteredAsDirectory(cleanedArg)
+				if !(isRegistered || isRegisteredAsDir) {
+					return fmt.Errorf("error: pathspec '%s' did not match any file(s) known to goit", arg)
 				}
 
-				if err != nil {
-					return fmt.Errorf("%w: %s", ErrIOHandling, arg)
-				}
-				if f.IsDir() { // directory
-					filePaths, err := file.GetFilePathsUnderDirectory(argAbsPath)
-					if err != nil {
-						return fmt.Errorf("fail to get file path under directory: %w", err)
-					}
-					for _, filePath := range filePaths {
-						curPath, err := os.Getwd()
-						if err != nil {
-							return fmt.Errorf("fail to get current directory: %w", err)
-						}
-						relPath, err := filepath.Rel(curPath, filePath)
-						if err != nil {
-							return fmt.Errorf("fail to get relative path: %w", err)
-						}
-						cleanedRelPath := strings.ReplaceAll(relPath, `\`, "/")
-
-						// restore working directory
-						if err := restoreWorkingDirectory(client.RootGoitPath, cleanedRelPath, client.Idx); err != nil {
-							return err
-						}
-					}
-				} else { // file
-					cleanedArg := filepath.Clean(arg)
-					cleanedArg = strings.ReplaceAll(cleanedArg, `\`, "/")
-
-					// restore working directory
+				if isRegistered {
 					if err := restoreWorkingDirectory(client.RootGoitPath, cleanedArg, client.Idx); err != nil {
 						return err
+					}
+				}
+				if isRegisteredAsDir {
+					entries := client.Idx.GetEntriesByDirectory(cleanedArg)
+					for _, entry := range entries {
+						if err := restoreWorkingDirectory(client.RootGoitPath, string(entry.Path), client.Idx); err != nil {
+							return err
+						}
 					}
 				}
 			}
